@@ -43,11 +43,15 @@ func (p *Program) Normalise(b *Baseline) {
 			if !b.HasFunc(q) {
 				known = union
 			}
+			n.canonConst(fd)
+			n.canonShape(fd)
 			for round := 0; round < 3; round++ {
 				if !n.substituteLocals(fd, q, known) {
 					break
 				}
 			}
+			n.canonShape(fd)
+			n.canonCompare(fd)
 			n.canonLen(fd)
 			n.canonMapLookup(fd)
 			tags := b.Tags[q]
@@ -77,6 +81,9 @@ type normaliser struct {
 	in   *inliner
 	pure map[*types.Func]int // 0 unknown, 1 pure, 2 impure, 3 in progress
 	base *Baseline
+
+	byValue    map[string]*types.Const // string value -> the one package-level constant that has it
+	byteConsts map[int64]*types.Const  // value -> the one uint8-only integer constant that has it
 }
 
 // canonLen rewrites length tests of strings against 0/1 into comparisons with "".
@@ -188,14 +195,16 @@ func (n *normaliser) substituteLocals(fd *ast.FuncDecl, q string, known map[stri
 		if known[exprKey(n.info, def.rhs)] || renamedKnown[def.id] {
 			continue
 		}
-		if !n.pureExpr(def.rhs, 0) || n.callsNewHelper(def.rhs) {
+		if n.callsNewHelper(def.rhs) {
 			continue
 		}
 		uses, ok := n.usesOf(fd, def, obj)
 		if !ok || len(uses) == 0 {
 			continue
 		}
-		if !n.stable(fd, def, uses) {
+		if n.adjacentSingleUse(fd, def, uses) {
+			// `tmp := E; return tmp` / `tmp := g(); f(tmp)`: whatever E does, it does it at the same point
+		} else if !n.pureExpr(def.rhs, 0) || !n.stable(fd, def, uses) {
 			continue
 		}
 		// replace the uses
@@ -237,6 +246,120 @@ func (n *normaliser) substituteLocals(fd *ast.FuncDecl, q string, known map[stri
 		break // positions and definitions changed: recompute
 	}
 	return changed
+}
+
+// adjacentSingleUse: the local is defined by the statement right before the one statement that uses
+// it, once, and nothing in that statement is evaluated before the use (no call, receive or
+// composite operand to its left other than the calls it is an argument of, whose callee is named by
+// identifiers). Substituting then keeps the order of every effect, pure or not.
+func (n *normaliser) adjacentSingleUse(fd *ast.FuncDecl, def localDef, uses []*ast.Ident) bool {
+	if len(uses) != 1 {
+		return false
+	}
+	as, ok := def.stmt.(*ast.AssignStmt)
+	if !ok || len(as.Lhs) != 1 || len(as.Rhs) != 1 || as.Tok != token.DEFINE {
+		return false
+	}
+	use := uses[0]
+	var next ast.Stmt
+	ast.Inspect(fd.Body, func(node ast.Node) bool {
+		var list []ast.Stmt
+		switch x := node.(type) {
+		case *ast.BlockStmt:
+			list = x.List
+		case *ast.CaseClause:
+			list = x.Body
+		case *ast.CommClause:
+			list = x.Body
+		}
+		for i, s := range list {
+			if s == ast.Stmt(as) && i+1 < len(list) {
+				next = list[i+1]
+			}
+		}
+		return next == nil
+	})
+	if next == nil || !(next.Pos() <= use.Pos() && use.End() <= next.End()) {
+		return false
+	}
+	var scope ast.Node
+	switch x := next.(type) {
+	case *ast.ReturnStmt, *ast.ExprStmt, *ast.DeferStmt, *ast.GoStmt, *ast.SendStmt:
+		scope = x
+	case *ast.AssignStmt:
+		for _, l := range x.Lhs {
+			if _, isID := l.(*ast.Ident); !isID {
+				return false // the operands of an index or field target are evaluated first
+			}
+		}
+		scope = x
+	default:
+		return false
+	}
+	if _, isGo := next.(*ast.GoStmt); isGo {
+		return false
+	}
+	ok = true
+	ancestors := map[ast.Node]bool{}
+	var stack []ast.Node
+	ast.Inspect(scope, func(node ast.Node) bool {
+		if node == nil {
+			stack = stack[:len(stack)-1]
+			return false
+		}
+		if node == ast.Node(use) {
+			for _, a := range stack {
+				ancestors[a] = true
+			}
+		}
+		stack = append(stack, node)
+		return true
+	})
+	ast.Inspect(scope, func(node ast.Node) bool {
+		if node == nil || !ok {
+			return false
+		}
+		if node.Pos() >= use.Pos() {
+			return false
+		}
+		switch x := node.(type) {
+		case *ast.FuncLit:
+			if ancestors[x] {
+				ok = false // the use would run later
+			}
+			return false
+		case *ast.CallExpr:
+			if !ancestors[x] || !plainCallee(x.Fun) {
+				ok = false
+			}
+		case *ast.UnaryExpr:
+			if x.Op == token.ARROW {
+				ok = false
+			}
+		case *ast.BinaryExpr:
+			if ancestors[x] && (x.Op == token.LAND || x.Op == token.LOR) && x.Y.Pos() <= use.Pos() {
+				ok = false // evaluated only conditionally
+			}
+		case *ast.IndexExpr, *ast.SliceExpr, *ast.StarExpr, *ast.TypeAssertExpr:
+			if !ancestors[x] {
+				ok = false // may panic first
+			}
+		}
+		return true
+	})
+	return ok
+}
+
+func plainCallee(e ast.Expr) bool {
+	switch x := e.(type) {
+	case *ast.Ident:
+		return true
+	case *ast.SelectorExpr:
+		return plainCallee(x.X)
+	case *ast.ParenExpr:
+		return plainCallee(x.X)
+	}
+	return false
 }
 
 func (n *normaliser) dropDef(fd *ast.FuncDecl, def localDef) {
